@@ -16,6 +16,7 @@ EXTENDS Naturals, Sequences, FiniteSets, TLC, Json
 CONSTANTS Keys,      \* set of strings
           Vals,      \* set of integers
           MaxList    \* longest list offered to the list constructors
+CONSTANT SampleT
 
 VARIABLES s,         \* the abstract list: Seq([k, v])
           last       \* the transition that produced s (observation only)
@@ -136,5 +137,6 @@ StepLaws ==
 \* action property and (b) emitted once for direction R through an action constraint.
 View == s
 StepProp == [][StepLaws']_vars
-EmitT == PrintT(<<"CASE", ToJson(last')>>)
+\* emit every transition (SampleT = 1) or a random 1/SampleT of them (all are model-checked either way)
+EmitT == RandomElement(1..SampleT) # 1 \/ PrintT(<<"CASE", ToJson(last')>>)
 =============================================================================
